@@ -19,9 +19,11 @@ def split(src):
     i = 1
     while i < len(lines) and lines[i].strip() == "":
         i += 1
-    if i < len(lines) and lines[i].startswith("import"):
+    if i < len(lines) and lines[i].startswith("import ("):
         while not lines[i].startswith(")"):
             i += 1
+        i += 1
+    elif i < len(lines) and lines[i].startswith("import "):
         i += 1
     blocks = []
     cur = []
